@@ -46,7 +46,7 @@ def run_e1(rep, prog):
     for fn in product_fns(prog):
         st, finds, checked = e1.ref_after_grow(S, prog, fn)
         for (did, g, why) in checked:
-            rep.ok("C10.ref-after-grow", prog, fn, g, "binding #%s vs %s: %s" % (did, short(g, 60), why))
+            rep.ok("C10.ref-after-grow", prog, fn, g, "binding '%s' vs %s: %s" % (S._local_bindings(fn)[did][3].get("name", "?"), short(g, 60), why))
         seen = set()
         for f in finds:
             callee = f["grow"].get("callee", "?")
